@@ -118,14 +118,17 @@ class InjectedIOError(OSError):
 
 
 class _TornFile:
-    def __init__(self, f, seam):
+    def __init__(self, f, seam, name=''):
         self._f = f
         self._seam = seam
+        self._name = str(name)
 
     def write(self, data):
         seam = self._seam
-        seam.writes += 1
         plan = seam.plan
+        if plan and plan.get('file') and not self._name.endswith(plan['file']):
+            return self._f.write(data)      # the fault is aimed at another file of this save
+        seam.writes += 1
         if plan and not seam.fired and plan['kind'] in ('write-fails', 'torn-write') and \
                 seam.writes == plan['at']:
             seam.fired = True
@@ -185,7 +188,7 @@ class FileSeam:
                     self.opens == plan['at']:
                 self.fired = True
                 raise InjectedIOError(13, 'Permission denied (injected, open-fails)')
-            return _TornFile(builtins.open(name, mode, *a, **k), self)
+            return _TornFile(builtins.open(name, mode, *a, **k), self, name)
         return builtins.open(name, mode, *a, **k)
 
     def __enter__(self):
